@@ -1,6 +1,7 @@
 package main
 
 import (
+	"go/types"
 	"fmt"
 	"go/token"
 
@@ -34,7 +35,14 @@ func ordersAt(in ssa.Instruction) map[int]bool {
 		} else if cc, ok := b.X.(*ssa.Const); ok {
 			c, other = cc, b.Y
 		}
-		if c == nil || c.Value == nil || !loadOfField(other, "indexedMessageIterator", "order") {
+		isOrder := loadOfField(other, "indexedMessageIterator", "order")
+		if prm, ok := other.(*ssa.Parameter); ok && !isOrder {
+			// the read order handed to a method of the queue type
+			if nt, ok := prm.Type().(*types.Named); ok && nt.Obj().Name() == "ReadOrder" {
+				isOrder = true
+			}
+		}
+		if c == nil || c.Value == nil || !isOrder {
 			continue
 		}
 		k := int(c.Int64())
@@ -78,7 +86,7 @@ func checkFileOrder(p *Program, r *Result) {
 	}
 	nChunkSort, nQueueSort := 0, 0
 	fileOrderChunkSort := false
-	for _, m := range methodsOf(p, pkgMcap, "indexedMessageIterator") {
+	for _, m := range iteratorAndQueueMethods(p) {
 		if m.Blocks == nil {
 			continue
 		}
